@@ -318,6 +318,8 @@ def wordLike (s : Str) : Bool := noNl s && headNonSpace s
 structure WState where
   depth : Nat            -- height of compat's `indents` stack
   startline : Bool       -- compat's flag
+  afterMiddle : Bool     -- the previous token was an FSTRING_MIDDLE: the physical line may still consist of
+                         -- whitespace only, so no gap may follow
 
 def wfGo (p : Str) (st : WState) : List ATok → Bool
   | [] => true
@@ -325,15 +327,17 @@ def wfGo (p : Str) (st : WState) : List ATok → Bool
     a.gap.all isBlank &&
     match a.tok.kind with
     | .INDENT => a.gap == [] && a.tok.text.all isBlank && decide (p.length ≤ a.tok.text.length) &&
-        !mixes (p.contains '\t') a.tok.text && wfGo p ⟨st.depth + 1, st.startline⟩ as
-    | .DEDENT => a.gap == [] && a.tok.text == [] && st.depth != 0 && wfGo p ⟨st.depth - 1, st.startline⟩ as
+        !mixes (p.contains '\t') a.tok.text && !st.afterMiddle && wfGo p ⟨st.depth + 1, st.startline, false⟩ as
+    | .DEDENT => a.gap == [] && a.tok.text == [] && st.depth != 0 && !st.afterMiddle &&
+        wfGo p ⟨st.depth - 1, st.startline, false⟩ as
     | .ENDMARKER => a.gap == [] && a.tok.text == [] && st.depth == 0 && as.isEmpty
-    | .NEWLINE | .NL => a.tok.text == ['\n'] && wfGo p ⟨st.depth, true⟩ as
-    | .FSTRING_MIDDLE => a.gap == [] && !st.startline && noNl a.tok.text && wfGo p ⟨st.depth, false⟩ as
-    | .STRING => headNonSpace a.tok.text && lastNonSpace a.tok.text && st.depth != 0 &&
-        wfGo p ⟨st.depth, false⟩ as
+    | .NEWLINE | .NL => a.tok.text == ['\n'] && (!st.afterMiddle || a.gap == []) && wfGo p ⟨st.depth, true, false⟩ as
+    | .FSTRING_MIDDLE => a.gap == [] && !st.startline && !st.afterMiddle && wfGo p ⟨st.depth, false, true⟩ as
+    | .STRING => headNonSpace a.tok.text && lastNonSpace a.tok.text && st.depth != 0 && !st.afterMiddle &&
+        wfGo p ⟨st.depth, false, false⟩ as
     | .NAME | .NUMBER | .OP | .COMMENT | .FSTRING_START | .FSTRING_END =>
-        wordLike a.tok.text && st.depth != 0 && wfGo p ⟨st.depth, false⟩ as
+        wordLike a.tok.text && st.depth != 0 && (!st.afterMiddle || a.gap == []) &&
+        wfGo p ⟨st.depth, false, false⟩ as
     | .ENCODING | .OTHER => false
 
 /-- the stream starts with the INDENT that announces the block indentation `p` (non-empty, blanks only, not
@@ -343,7 +347,7 @@ def wf (p : Str) (as : List ATok) : Bool :=
   | a :: b :: rest => a.tok.kind = .INDENT && a.tok.text == p && a.gap == [] && p != [] &&
       p.all isBlank && !mixes (p.contains '\t') p &&
       !zeroWidth b.tok.kind && b.tok.kind != .FSTRING_MIDDLE &&
-      wfGo p ⟨1, true⟩ (b :: rest)
+      wfGo p ⟨1, true, false⟩ (b :: rest)
   | _ => false
 
 /-- the tokenizer's indentation discipline: the first token of every logical line is preceded by exactly
